@@ -199,6 +199,25 @@ Section Pixels.
     | i :: r => match input_at i R C with Some v => Some v | None => pasted r R C end
     end.
 
+  (* the (image, desc) items tile() iterates over: zip(collection.images(), self._descs) *)
+  Fixpoint make_inputs (segs : list segment) (ds : list fits_desc) (pxs : list pixels) : list input :=
+    match segs, ds, pxs with
+    | s :: segs', d :: ds', p :: pxs' =>
+        mkInput s (fd_w d) (fd_h d) (fd_par d) p :: make_inputs segs' ds' pxs'
+    | _, _, _ => []
+    end.
+
+  (* compute_global_pixelization followed by tile(parallel=1) *)
+  Definition process (ds : list fits_desc) (pxs : list pixels) (inv : bool) : option (global_px * store) :=
+    match compute_global_pixelization ds with
+    | None => None
+    | Some g =>
+        match tile_serial inv (make_inputs (gp_segments g) ds pxs) with
+        | None => None
+        | Some s => Some (g, s)
+        end
+    end.
+
   Definition overlaps_agree (ins : list input) : Prop :=
     forall i j R C v v', In i ins -> In j ins ->
       input_at i R C = Some v -> input_at j R C = Some v' -> v = v'.
